@@ -37,8 +37,14 @@ class TimersCtx(BaseCtx):
         # the session under observation is the one negotiated by the OPENs exchanged in THAT session
         self.prelude = []
         if cfg.get("peer_open0"):
+            if cfg.get("prelude_late_close"):
+                # the earlier session is ended by the agent (peer NOTIFICATION); the completion of that close
+                # is held back until the session under observation is up
+                end = ["send", 0, rp.encode_notification(6, 4).hex(), []]
+            else:
+                end = ["pclose", 0, bool(cfg.get("prelude_clean", True))]
             self.prelude = [["fire", 0], ["conn_ok", 0], ["send", 0, cfg["peer_open0"], []],
-                            ["send", 0, rp.encode_keepalive().hex(), []], ["pclose", 0, bool(cfg.get("prelude_clean", True))]]
+                            ["send", 0, rp.encode_keepalive().hex(), []], end]
         self.in_prelude = bool(self.prelude)
         self.prelude_left = len(self.prelude)      # counted in step(), so that replay needs no choose()
         self.prelude_sent = 0
@@ -64,6 +70,9 @@ class TimersCtx(BaseCtx):
                 return None
             return ["fire", 0]
         if self.phase == "connect":
+            for i, c in enumerate(w.live_conns()):
+                if c.state == "connecting":
+                    return ["conn_ok", i]
             return ["conn_ok", 0]
         if self.phase == "ended":
             # let a little more time pass: nothing may be written after the close
@@ -79,6 +88,12 @@ class TimersCtx(BaseCtx):
                     self.next_arrival = float("inf")
                 else:
                     self.next_arrival = w.now() + rng.pick([0.0, 0.0, 1.0, 239.999, 240.0, 240.001])
+        if self.phase == "established" and self.cfg.get("prelude_late_close") and not getattr(self, "late_done", False):
+            self.late_done = True
+            for i, c in enumerate(w.live_conns()):
+                if c.closing():
+                    self.stats["gen:late_close_of_earlier_connection"] += 1
+                    return ["cdone", i]
         if self.phase in ("openconfirm", "established") and self.next_arrival is None:
             if self.arrivals_left <= 0:
                 # final long silence
@@ -114,18 +129,30 @@ class TimersCtx(BaseCtx):
     def arrival_op(self, rng):
         self.next_arrival = None
         if self.phase == "opensent":
-            return ["send", 0, self.cfg["peer_open"], []]
+            return ["send", self.k(), self.cfg["peer_open"], []]
         if self.phase == "openconfirm":
             if self.cfg.get("second_open") and not getattr(self, "second_open_sent", False):
                 # a further valid OPEN (other hold time) before the KEEPALIVE: if the agent ignores it,
                 # the contract negotiated by the first one stays in force
                 self.second_open_sent = True
                 self.next_arrival = self.world.now() + rng.pick([0.0, 0.5])
-                return ["send", 0, self.cfg["second_open"], []]
-            return ["send", 0, rp.encode_keepalive().hex(), []]
+                return ["send", self.k(), self.cfg["second_open"], []]
+            return ["send", self.k(), rp.encode_keepalive().hex(), []]
+        if self.cfg.get("rest_sends") and rng.chance(0.25):
+            # an operator-originated UPDATE: it may stand in for a KEEPALIVE, it must not suppress one
+            self.next_arrival = self.world.now() + rng.pick([0.0, 0.5, self.H / 6.0 if self.H else 1.0])
+            return ["rest", "POST", base.URL + "send/update", "ok",
+                    {"attr": {"1": 0, "2": [], "3": "10.0.0.1", "5": 100}, "nlri": ["10.%d.0.0/16" % rng.randrange(256)]}]
         if rng.chance(0.3):
-            return ["send", 0, base.gen_update(rng, self.cfg, False).hex(), []]
-        return ["send", 0, rp.encode_keepalive().hex(), []]
+            return ["send", self.k(), base.gen_update(rng, self.cfg, False).hex(), []]
+        return ["send", self.k(), rp.encode_keepalive().hex(), []]
+
+    def k(self):
+        live = self.world.live_conns()
+        for i in range(len(live) - 1, -1, -1):
+            if live[i].readable():
+                return i
+        return 0
 
     # ------------------------------------------------------------------ oracle
     def step(self, op):
@@ -304,6 +331,14 @@ class TimersCtx(BaseCtx):
                             % (now, H, self.deadline))
         if t[0] == "estab":
             return
+        if t[0] == "tx" and name == "UPDATE" and self.cfg.get("rest_sends") and self.phase == "established":
+            # RFC 4271 4.4: an UPDATE may take the place of a KEEPALIVE
+            if H > 0 and self.last_ka_tx is not None and now > self.last_ka_tx + H / 3.0 + EPS:
+                raise Violation("C03", "keepalive", "%s/%s/message-gap-over-third" % (cell_h, self.phase),
+                                "H=%s: UPDATE at t=%.3f, previous agent message at %.3f" % (H, now, self.last_ka_tx))
+            self.last_ka_tx = now if H > 0 else self.last_ka_tx
+            self.stats["rest_update_sent"] += 1
+            return
         if t[0] == "tx":
             raise Violation("C03", "session", "%s/%s/unexpected-%s" % (cell_h, self.phase, name), "unexpected %s" % name)
 
@@ -322,7 +357,7 @@ class TimersProfile(BaseProfile):
             "KEEPALIVE/UPDATE gaps from {H-e,H,H+e,H/3,0,H/2,3H,...} in OpenConfirm and Established (or total silence in "
             "OpenSent), all timers fired at their virtual instants with explicit tie order; non-trivial = reached "
             "Established or observed an expiry; distinct = distinct (phase, op, outputs, arrivals) sequence")
-    probes = ["second_open_in_openconfirm", "two_session_runs", "gen:tie_timer_vs_arrival", "same_instant_timers", "expiry_negotiated_hold", "expiry_large_hold",
+    probes = ["gen:late_close_of_earlier_connection", "rest_update_sent", "second_open_in_openconfirm", "two_session_runs", "gen:tie_timer_vs_arrival", "same_instant_timers", "expiry_negotiated_hold", "expiry_large_hold",
               "periodic_keepalive", "arrival_restarts_hold", "closed_after_expiry"]
 
     def gen_config(self, rng, idx, tier):
@@ -343,6 +378,9 @@ class TimersProfile(BaseProfile):
         cfg["n_arrivals"] = rng.pick([0, 1, 2, 4, 8, 16])
         cfg["max_ops"] = 400
         cfg["peer_open"] = base.gen_open(rng, cfg, "valid", hold=cfg["peer_hold"]).hex()
+        if cfg.get("peer_open0") and rng.chance(0.3):
+            cfg["prelude_late_close"] = True
+        cfg["rest_sends"] = rng.chance(0.15)
         if rng.chance(0.12):
             cfg["second_open"] = base.gen_open(rng, cfg, "valid", hold=rng.pick([0, 3, 9, 30, 90, 180, 600])).hex()
         return cfg
